@@ -68,7 +68,41 @@ func runC17(c *Ctx) {
 		} else {
 			T := Term(at[0].Instr.(*ssa.Call))
 			c.Ob("C17-D1", "eio.Server.ServeHTTP/version-source", at[0].Pos(), strings.Contains(T, `Get("EIO")`), "the protocol version must be read from the EIO query parameter; parses "+T)
-			base := []Assume{{`s\.IsClosed\(\)`, false}, {`\(r\.ProtoMajor != 3\)`, true}, {`\(r\.ProtoMajor == 3\)`, false}}
+			base := []Assume{{`s\.IsClosed\(\)`, false}, {`\(r\.ProtoMajor != 3\)`, true}, {`\(r\.ProtoMajor == 3\)`, false}, {`.*isWebTransportRequest\(r\)`, false}}
+			// the check is skipped for the WebTransport CONNECT only, not for every HTTP/3 request (F50): whatever guards the
+			// parse mentions the request method next to the protocol version — inline, or in the helper it calls
+			mentionsMethod := false
+			var guardTerms []string
+			for _, g := range Guards(at[0].Instr) {
+				t := Term(g.Cond)
+				guardTerms = append(guardTerms, t)
+				if strings.Contains(t, ".Method") {
+					mentionsMethod = true
+				}
+				var call *ssa.Call
+				switch x := g.Cond.(type) {
+				case *ssa.Call:
+					call = x
+				case *ssa.UnOp:
+					call, _ = x.X.(*ssa.Call)
+				}
+				if call != nil && call.Call.StaticCallee() != nil && p.inModule(call.Call.StaticCallee()) {
+					for _, bb := range call.Call.StaticCallee().Blocks {
+						for _, in := range bb.Instrs {
+							if bo, isB := in.(*ssa.BinOp); isB && strings.Contains(Term(bo.X), ".Method") && strings.Contains(Term(bo.Y), "CONNECT") {
+								mentionsMethod = true
+							}
+						}
+					}
+				}
+			}
+			protoOnly := false
+			for _, t := range guardTerms {
+				if strings.Contains(t, "ProtoMajor") {
+					protoOnly = true
+				}
+			}
+			c.Ob("C17-D1", "eio.Server.ServeHTTP/version-check-skipped-for-webtransport-only", at[0].Pos(), mentionsMethod || !protoOnly && len(guardTerms) == 0, fmt.Sprintf("the EIO version check runs under %v: every HTTP/3 request skips it, not only the WebTransport CONNECT — GET ?EIO=3 over HTTP/3 gets a session", guardTerms))
 			r1, t1 := PrunedCanReach(fn, nil, append(base, Assume{regexpQuote("(" + T + "#1 != nil)"), true}, Assume{regexpQuote("(" + T + "#1 == nil)"), false}), lookup, nil)
 			c.Ob("C17-D1", "eio.Server.ServeHTTP/bad-version-no-lookup[parse]", at[0].Pos(), !r1, "an unparsable EIO version still reaches the sid lookup / handshake: "+trailString(p, t1))
 			r2, t2 := PrunedCanReach(fn, nil, append(base, Assume{regexpQuote("(" + T + "#1 != nil)"), false}, Assume{regexpQuote("(" + T + "#1 == nil)"), true}, Assume{regexpQuote("(" + T + "#0 != 4)"), true}, Assume{regexpQuote("(" + T + "#0 == 4)"), false}), lookup, nil)
